@@ -348,9 +348,26 @@ Fixpoint delete_all_signer (suffixes : list bytes) : outcome (list height) :=
       end
   end.
 
+(** The repaired parser (patch /var/tmp/fixes/C15/bsc-recent-signer-key.diff): an error unless the key
+    splits into exactly two parts. *)
+Fixpoint delete_all_signer_strict (suffixes : list bytes) : outcome (list height) :=
+  match suffixes with
+  | [] => Ok []
+  | s :: t =>
+      match split_slash s [] with
+      | [_; part] =>
+          match parse_height part with
+          | Some h => match delete_all_signer_strict t with Ok l => Ok (h :: l) | o => o end
+          | None => Err
+          end
+      | _ => Err
+      end
+  end.
+
 (** * Initialize / UpgradeState / Status *)
 Section Clients.
   Variable now : N.   (* uint64(ctx.BlockTime().Unix()) *)
+  Variable strict : bool.   (* recent-signer keys parsed by the repaired parser (false at /repo HEAD) *)
 
   (** bsc ecrecover + the coinbase comparison.  [old]: the chain id goes through
       big.NewInt(int64(ChainId)); rlp refuses a negative big.Int and encodeSigHeader panics. *)
@@ -390,7 +407,7 @@ Section Clients.
             end
         end in
       kst' <- pruned ;;
-      dels <- delete_all_signer (c_signers st) ;;
+      dels <- (if strict then delete_all_signer_strict (c_signers st) else delete_all_signer (c_signers st)) ;;
       let signers' := fold_left (fun l h => remove_key (signer_suffix h) l) dels (c_signers st) in
       _ <- bsc_recover old hd chain_id seal_ok ;;
       let st' := bsc_set_signer {| c_client := c_client st; c_cons := kst'; c_signers := signers' |} hd in
